@@ -3,16 +3,18 @@
 package req
 
 import (
-	"os"
 	"bytes"
+	"context"
 	"encoding/binary"
 	"fmt"
 	"io"
 	"net"
+	"os"
 	"runtime"
 	"strconv"
 	"strings"
 	"sync"
+	"sync/atomic"
 	"testing"
 	"time"
 
@@ -508,5 +510,84 @@ func TestVerif_C07_h2hostile(t *testing.T) {
 	cpu := c07CPU() - cpu0
 	s.Observe("idle-cpu", cpu < 600*time.Millisecond, "", true, "process CPU time during 1 s of idleness after the run", fmt.Sprintf("a goroutine is spinning: %v CPU in 1 s idle", cpu))
 	s.Observe("goroutines", g1 <= g0+8, "", true, fmt.Sprintf("goroutines before=%d after=%d", g0, g1), fmt.Sprintf("goroutines leaked: before=%d after=%d", g0, g1))
+	s.Finish()
+}
+
+// TestVerif_C07_h2budget: endless frame streams must be cut off by the header-list / 1xx /
+// flow-control limits: the call fails and the client has read only a bounded number of bytes.
+func TestVerif_C07_h2budget(t *testing.T) {
+	s := verifh.New(t, "C07", "h2budget",
+		"endless HTTP/2 streams answering one request (1xx HEADERS forever, CONTINUATION forever, DATA forever on a stream nobody reads, DATA forever beyond content-length, header fields forever inside one huge block) with MaxHeaderListSize 64 KiB; oracle: the call (or the body read) fails and the client read at most a bounded number of bytes; every case non-trivial")
+	peer := newC07H2Peer(t)
+	defer peer.ln.Close()
+	base := "http://" + peer.ln.Addr().String()
+	settings := c07Frame{-1, 4, 0, 0, nil}.bytes()
+	okHead := c07Frame{-1, 1, 0x4, 1, c07Hpack([2]string{":status", "200"})}.bytes()
+	clHead := c07Frame{-1, 1, 0x4, 1, c07Hpack([2]string{":status", "200"}, [2]string{"content-length", "10"})}.bytes()
+	bigField := c07Hpack([2]string{"x-filler", strings.Repeat("f", 8000)})
+	type bcase struct {
+		name    string
+		data    []byte
+		endless []byte
+		bound   int64
+		read    bool // read the body (the endless part is DATA)
+	}
+	const hl = 64 << 10
+	cases := []bcase{
+		{"endless-1xx", settings, c07Frame{-1, 1, 0x4, 1, c07Hpack([2]string{":status", "103"}, [2]string{"link", "</a>"})}.bytes(), 4 * hl, false},
+		{"endless-continuation", append(append([]byte{}, settings...), c07Frame{-1, 1, 0, 1, c07Hpack([2]string{":status", "200"})}.bytes()...), c07Frame{-1, 9, 0, 1, bigField}.bytes(), 4 * hl, false},
+		{"endless-data-unread", append(append([]byte{}, settings...), okHead...), c07Frame{-1, 0, 0, 1, bytes.Repeat([]byte("d"), 16384)}.bytes(), 16 << 20, false},
+		{"endless-data-beyond-content-length", append(append([]byte{}, settings...), clHead...), c07Frame{-1, 0, 0, 1, bytes.Repeat([]byte("d"), 1000)}.bytes(), 1 << 20, true},
+		{"endless-ping", settings, c07Frame{-1, 6, 0, 0, []byte("12345678")}.bytes(), -1, false},
+	}
+	for ci, bc := range cases {
+		var reads int64
+		c := C().SetTimeout(8 * time.Second).EnableH2C().EnableForceHTTP2().SetLogger(nil).SetHTTP2MaxHeaderListSize(hl)
+		c.SetDialTLS(func(ctx context.Context, network, addr string) (net.Conn, error) {
+			conn, err := net.Dial(network, addr)
+			if err != nil {
+				return nil, err
+			}
+			return &c07Conn{Conn: conn, reads: &reads}, nil
+		})
+		if !bc.read {
+			c.DisableAutoReadResponse()
+		}
+		path := fmt.Sprintf("/hb%d", ci)
+		peer.set(path, c07Script{data: bc.data, endless: bc.endless, cap: 64 << 20})
+		done := make(chan string, 1)
+		go func() {
+			ptxt, panicked := verifh.Safely(func() {
+				rp, err := c.R().Get(base + path)
+				if err != nil || rp == nil || rp.Err != nil {
+					done <- "error"
+					return
+				}
+				// headers arrived; wait for the connection to die from the flood of unread data
+				time.Sleep(2 * time.Second)
+				_, rerr := io.Copy(io.Discard, rp.Body)
+				if rerr != nil {
+					done <- "error"
+				} else {
+					done <- "response"
+				}
+			})
+			if panicked {
+				done <- "panic: " + ptxt
+			}
+		}()
+		var kind string
+		select {
+		case kind = <-done:
+		case <-time.After(30 * time.Second):
+			kind = "wedged"
+		}
+		got := atomic.LoadInt64(&reads)
+		ok := kind == "error" && (bc.bound < 0 || got <= bc.bound)
+		human := fmt.Sprintf("%s -> %s after reading %d bytes (bound %d)", bc.name, kind, got, bc.bound)
+		s.Count(kind)
+		s.Observe("h2budget:"+bc.name, ok, "", true, human, human)
+		c.GetTransport().CloseIdleConnections()
+	}
 	s.Finish()
 }
